@@ -9,6 +9,7 @@ import (
 	"sort"
 	"strings"
 	"testing"
+	"time"
 
 	"pgregory.net/rapid"
 	"verif.local/vcommon/mgen"
@@ -72,7 +73,25 @@ func c10hasZeroBlock(m *mgen.Manifest) bool {
 }
 
 func c10opts(t *rapid.T) mgen.GenOpts {
-	return mgen.GenOpts{Signed: rapid.Bool().Draw(t, "signed")}
+	return mgen.GenOpts{Signed: rapid.Bool().Draw(t, "signed"), BigStreams: rapid.IntRange(0, 5).Draw(t, "bigStreams") == 0}
+}
+
+// c10extract runs Extract with a watchdog: the package does its work on
+// internal goroutines and channels, so a stall shows as a call that never
+// returns ("No parser ... hangs on any input").
+func c10extract(t *rapid.T, txt, src, relocate string) Manifest {
+	done := make(chan Manifest, 1)
+	go func() {
+		ex := Manifest{Text: txt}
+		done <- ex.Extract(src, relocate)
+	}()
+	select {
+	case out := <-done:
+		return out
+	case <-time.After(20 * time.Second):
+		t.Fatalf("Extract(%q,%q) did not return within 20 s (hang) on valid manifest %q", src, relocate, txt)
+		panic("unreachable")
+	}
 }
 
 func TestVerifC10ManifestSegments(t *testing.T) {
@@ -206,8 +225,7 @@ func TestVerifC10Extract(t *testing.T) {
 		if rapid.IntRange(0, 2).Draw(t, "normalizeOnly") == 0 {
 			src, relocate = ".", "."
 		}
-		ex := Manifest{Text: txt}
-		out := ex.Extract(src, relocate)
+		out := c10extract(t, txt, src, relocate)
 		if out.Err != nil {
 			t.Fatalf("Extract(%q,%q) of valid manifest failed: %v\n%q", src, relocate, out.Err, txt)
 		}
